@@ -479,12 +479,14 @@ pub fn run(ctx: &crate::RunCtx) -> (Summary, Vec<Violation>) {
             sum.distinct_nontrivial += 1;
         }
         let t0 = std::time::Instant::now();
+        let ops0 = stats.ops;
         match exec_case(&case, &mut stats) {
             Ok(Some(v)) => {
+                sum.note(i, (stats.ops - ops0) ^ fnv(&v.class) ^ fnv(&v.site));
                 *sum.classes.entry(v.class.clone()).or_default() += 1;
                 viols.push(v);
             }
-            Ok(None) => {}
+            Ok(None) => sum.note(i, stats.ops - ops0),
             Err(e) => crate::harness_error(&e),
         }
         if std::env::var_os("VERIF_TRACE_SLOW").is_some() && t0.elapsed().as_millis() > 100 {
